@@ -115,7 +115,8 @@ def run(tier, seed):
     ok, log = core.build_vrun()
     specs = spec_list(rng, 10 if tier == "quick" else 40)
     facts = sketchcheck.learn_specs("C14", specs) if ok else {}
-    builders = [build(rng, facts, "p%d" % i) for i in range(300 if tier == "quick" else 8000)] if facts else []
+    from .c15 import build_same_length          # a read before Clear must not alter the answers after it (the twin is never read)
+    builders = ([build(rng, facts, "p%d" % i) for i in range(300 if tier == "quick" else 8000)] + [build_same_length(rng, facts, "sl%d" % i) for i in range(40 if tier == "quick" else 800)]) if facts else []
     return sketchcheck.run_sketch_property(
         "C14", tier, seed, builders,
         "histories interleaving additions with random runs of read-only operations (quantile(s), full observation, sum, iteration with and without early stop, binary encoding with and without "
